@@ -12,9 +12,9 @@
      C04_comment_lines            the exact text serialize_comment writes
      C04_final_indent_zero        a run of the serializer ends at the indent level it started with
    PROVED FOR THE FRAGMENT simple_resource (Syntax/RoundTrip.v: stand-alone comments of all three levels;
-   messages and terms without attached comment whose value and attribute values are one single-line text
-   element each; messages with attributes only; see Props/C02.v for the exact definition and what it
-   excludes), both serializer options:
+   messages and terms without attached comment whose value and attribute values are one-line patterns made of
+   text and placeables with a reference (no call arguments) or a literal; messages with attributes only; see
+   Props/C02.v for the exact definition and what it excludes), both serializer options:
      C04_roundtrip_simple_partial the round trip: the serializer's text parses back to the SAME tree, no errors
      C04_fixpoint_simple_partial  serialising the re-parsed tree gives the same text
      C04_simple_output            the text itself (one line per message/term/attribute/comment line, blank lines
@@ -242,8 +242,9 @@ Proof.
   rewrite Hs' in Hs. injection Hs as <-. rewrite Hp in Hp2. injection Hp2 as <- <-. exact Hs'.
 Qed.
 
-(* the text (SerializerRoundTrip.simple_resource_text): per message  id " = " text, then per attribute a new
-   line with four spaces, ".", the attribute id, " = " and its text, then LF; a term has a leading '-'; a
+(* the text (SerializerRoundTrip.simple_resource_text): per message  id " = " line, then per attribute a new
+   line with four spaces, ".", the attribute id, " = " and its line, then LF (a line: text as it is, a
+   placeable as "{ " expression " }"); a term has a leading '-'; a
    message without value has  id " ="  and its attributes; a stand-alone comment is preceded by an empty line
    unless it is the first entry, has per line the prefix (#, ##, ###), " " and the line (an empty line: the
    prefix only) and LF, and is followed by an empty line *)
@@ -254,7 +255,7 @@ Proof. exact serialize_simple. Qed.
 
 Example C04_example_simple_output :
   let t := [ResourceComment (Comment [bytes_of_string "r"; []; bytes_of_string "s"]);
-            Message (bytes_of_string "m") (Some (Pattern [TextElement (bytes_of_string "[v]")]))
+            Message (bytes_of_string "m") (Some (Pattern [TextElement (bytes_of_string "[v] "); PlaceableElement (Inline (VariableReference (bytes_of_string "x")))]))
                     [Attribute (bytes_of_string "a") (Pattern [TextElement (bytes_of_string "w x")])] None;
             CommentEntry (Comment [bytes_of_string "free"]);
             Message (bytes_of_string "n") None [Attribute (bytes_of_string "b") (Pattern [TextElement (bytes_of_string "*")])] None;
@@ -262,7 +263,7 @@ Example C04_example_simple_output :
   simple_resource t = true /\
   serialize_with_options true t =
   Done (bytes_of_string "### r" ++ [10%N] ++ bytes_of_string "###" ++ [10%N] ++ bytes_of_string "### s" ++ [10; 10]%N ++
-        bytes_of_string "m = [v]" ++ [10%N] ++ bytes_of_string "    .a = w x" ++ [10; 10]%N ++
+        bytes_of_string "m = [v] { $x }" ++ [10%N] ++ bytes_of_string "    .a = w x" ++ [10; 10]%N ++
         bytes_of_string "# free" ++ [10; 10]%N ++
         bytes_of_string "n =" ++ [10%N] ++ bytes_of_string "    .b = *" ++ [10%N] ++
         bytes_of_string "-t = y" ++ [10%N]).
